@@ -288,7 +288,6 @@ def v15_forgeries(kd, hn, msg):
     yield "first-octet-01", mk(t1, head=b"\x01\x01")
     yield "no-separator", mk(t1, sep=b"")
     yield "separator-01", mk(t1, sep=b"\x01")
-    yield "separator-ff00", mk(t1, sep=b"\xff\x00")[:k] if mk(t1, sep=b"\xff\x00") else None
     yield "ps-all-00", mk(t1, fill=0x00)
     yield "ps-all-fe", mk(t1, fill=0xFE)
     for i in range(ps):
@@ -608,10 +607,6 @@ def pss_forgeries(kd, cfg, msg):
     yield "hash-of-other-message", I(pss_build(B.ref_digest(hn, B.other_message(msg)), em_bits, salt, hn, mgfh)), False
     other_mgf = "sha1" if mgfh != "sha1" else "sha256"
     yield "other-mgf-hash", I(pss_build(mhash, em_bits, salt, hn, other_mgf)), False
-    for other in ("sha256", "sha3_256", "sha512_256", "sha1", "ripemd160"):
-        if other != hn and B.hash_size(other) == hl:
-            yield "other-hash-same-size", I(pss_build(B.ref_digest(other, msg), em_bits, salt, other, other if cfg[1] is None else mgfh)), False
-            break
     # EM longer than emLen (possible when the modulus has 8j+1 bits: k = emLen + 1)
     base = I(pss_build(mhash, em_bits, salt, hn, mgfh))
     for j in (1, 2, 255):
@@ -625,7 +620,7 @@ def pss_forgeries(kd, cfg, msg):
 def _tally(acc, scheme, kd, hn, tag, verdict, reason, res):
     acc.count("evaluations")
     acc.count("rsa_%s" % ("accept" if res == "accept" else "reject" if res == "ValueError" else "other"))
-    acc.seen("classes", (scheme, kd["bits"], kd["e"], hn, tag.split("@")[0].split("+")[0], verdict, reason, res))
+    acc.seen("classes", (scheme, kd["bits"], kd["e"], hn, tag.split("@")[0], verdict, reason, res))
     acc.seen("reasons", (scheme, reason))
 
 
